@@ -786,13 +786,15 @@ func init() {
 				inBubble(t, func(t *testing.T) {
 					x := newC12(t, rng, rec, pick(rng, c12RTOs))
 					defer x.close()
-					switch rng.Intn(4) {
+					switch rng.Intn(5) {
 					case 0:
 						x.caseConcurrent()
 					case 1:
 						x.caseClose()
 					case 2:
 						x.caseRtxWriteRace()
+					case 3:
+						x.caseCloseDuringRtxWrite()
 					default:
 						x.caseWriteError()
 					}
